@@ -1,12 +1,13 @@
 """C08 — merge: every item exactly once, per-input order kept, ends iff all inputs ended."""
+from ..facts import base
 from .. import families, scan, zw
 from ..families import short, ctor_fields, self_path
 from . import racelike, flow, common, c01, c02, c03, prims, joinlike
 
 PROPERTY = "C08"
 LEVEL = "other"
-CONFIGS_QUICK = ["std", "alloc"]
-CONFIGS_THOROUGH = ["std", "alloc", "core"]
+CONFIGS_QUICK = ["std", "alloc", "std-rel"]
+CONFIGS_THOROUGH = ["std", "alloc", "core", "std-rel", "alloc-rel", "core-rel"]
 EXPLANATION = (
     "Path and data-flow rules on the MIR of every merge poll_next body (tuple arities 1-12, array, Vec): (ITEM) on every input's "
     "Ready(Some) edge every path returns Ready(Some(that item)) in the same call - the item is neither buffered, dropped nor "
@@ -64,7 +65,7 @@ def run(ctx):
         joinlike.rule_zero_tuple0(ctx, M, "merge", "C08.ZERO", "Ready(None)")
         n = joinlike.rule_ext(ctx, M, "stream::stream_ext::StreamExt", "merge", "merge", "C08.EXT")
         ctx.require(n >= 1, "StreamExt::merge")
-        na = 1 if cfg == "core" else 2
+        na = 1 if base(cfg) == "core" else 2
         ctx.floor("C08.ITEM", cfg, 2 * (78 + na) + 2 * (12 + na))
         ctx.floor("C08.END", cfg, 2 * (78 + na) + 2 * (12 + na))
         ctx.floor("C08.ZERO", cfg, na + 1)
